@@ -1,6 +1,9 @@
-(* Property C07 -- theorems only. *)
+(* Property C07 -- theorems only.  Each is closed by `exact <lemma>` and followed by Print Assumptions.
+   L0 = TableSpec.v (the table as a list of rows), L1 = IndexModel.v / MultiHash.v (what DataIndexes.h does);
+   the segment sizes used by MultiHash.v are regenerated from SegmentedArray.h on every run (Gen_Segments.v),
+   and all models are run against the real momo::DataTable / DataIndexes on every run. *)
 From Coq Require Import List ZArith Permutation.
-From C07 Require Import TableSpec TableProofs.
+From C07 Require Import TableSpec TableProofs MultiHash MultiHashProofs IndexModel IndexProofs AtomicProofs.
 Import ListNotations.
 
 (* For EVERY history of table operations starting from the empty table (adds, inserts, whole-row and
@@ -39,3 +42,104 @@ Theorem C07_accepted_means_no_collision :
   forall cols n r', In cols (uniq t) -> nth_error (rows t) n = Some r' -> skip <> Some n -> proj cols r' <> proj cols r.
 Proof. exact accepted_means_no_collision. Qed.
 Print Assumptions C07_accepted_means_no_collision.
+
+(* DataIndexes::UpdateRaw(raw, column, item) on a unique hash, the code as it is now (UniqueHash::PrepareRemove
+   skips the entry this update has just added): for EVERY place the new entry may take in the hash table (ord),
+   EVERY relation "a probe for key k can see an entry placed under key s" (R, reflexive), if no other row has
+   the new key then afterwards the hash is consistent with the NEW row content (entries = rows, stored keys =
+   row keys, keys pairwise different, nothing pending), the row still has exactly one entry, and a lookup of
+   the new key finds exactly the entry just added; otherwise nothing changed and the reported row has the new key. *)
+Theorem C07_update_column_index_consistent :
+  forall (ord : nat -> nat) (R : list Z -> list Z -> bool) (ct : Z -> row) (u : uhash) (raw : Z) (c : nat) (v : Z) (tag : nat),
+    (forall k, R k k = true) -> uinv ct u -> In raw (map eraw (uents u)) -> ~ In tag (map etag (uents u)) ->
+    has_col (ucols u) c = true -> c < length (ct raw) -> v <> getc (ct raw) c ->
+    let ct' := fun r => if Z.eqb r raw then set_col c v (ct raw) else ct r in
+    let k' := proj (ucols u) (set_col c v (ct raw)) in
+    let '(u1, r) := u_add_mixed ord R ct u raw c v tag in
+    if Z.eqb r raw then
+      let u3 := u_accept_remove (u_accept_add (u_prepare_remove true R ct u1 raw)) in
+      uinv ct' u3 /\ Permutation (map eraw (uents u3)) (map eraw (uents u)) /\
+      u_find R ct' u3 (keyc ct' (ucols u) raw) = Some (mkE tag raw k')
+    else u1 = u /\ exists e, In e (uents u) /\ eraw e = r /\ keyc ct (ucols u) r = k'.
+Proof. exact update_column_index_consistent. Qed.
+Print Assumptions C07_update_column_index_consistent.
+
+(* The same statement is FALSE for UniqueHash::PrepareRemove as it was before commit 4f7b624: a consistent
+   one-row hash, a reflexive R and an order for which the accepted update leaves the row unreachable under
+   its new key (the replay of the repaired defect). *)
+Theorem C07_update_column_refuted :
+  exists ord R ct s raw c v,
+    (forall k, R k k = true) /\ Forall (uinv ct) (uhs s) /\
+    let '(s', o, ct') := update_col false true ord R ct None s raw c v in
+    o = Accepted /\
+    exists u', uhs s' = [u'] /\ u_find R ct' u' (keyc ct' (ucols u') raw) = None.
+Proof. exact update_column_refuted. Qed.
+Print Assumptions C07_update_column_refuted.
+
+(* ... and for MultiHash::PrepareRemove as it was before commit 2211fdb: after an accepted single-column update
+   to a fresh key the new key is absent and the row is still listed under its old key. *)
+Theorem C07_multi_update_column_refuted :
+  exists ord R ct s raw c v,
+    (forall k, R k k = true) /\
+    let '(s', o, ct') := update_col true false ord R ct None s raw c v in
+    o = Accepted /\
+    exists m', mhs s' = [m'] /\ find_multi R ct' m' (keyc ct' (mcols m') raw) = [] /\
+               In raw (find_multi R ct' m' [1%Z]).
+Proof. exact multi_update_column_refuted. Qed.
+Print Assumptions C07_multi_update_column_refuted.
+
+(* DataIndexes::AddRaw is atomic over all unique and multi hashes for EVERY failure schedule fl (the step that
+   throws), every order and every R: either nothing is refused and nothing throws and the result is that of
+   the failure-free run (every index accepted), or every unique hash holds exactly its previous entries and
+   every multi hash its previous keys and rows (value arrays up to order: pvAdd may have sorted a segment). *)
+Theorem C07_two_phase_atomic_add :
+  forall ord R ct fl s raw, wf s -> Forall (row_absent_m raw) (mhs s) ->
+  let '(s', o) := add_raw ord R ct fl s raw in
+  (o = Accepted /\ s' = fst (add_raw ord R ct None s raw)) \/ (o <> Accepted /\ rolled_back s s').
+Proof. exact two_phase_atomic_add. Qed.
+Print Assumptions C07_two_phase_atomic_add.
+
+(* the same for UpdateRaw(oldRaw, newRaw), with either shape of PrepareRemove *)
+Theorem C07_two_phase_atomic_update :
+  forall fixu fixm ord R ct fl s old new,
+  wf s -> Forall (row_absent_u new) (uhs s) -> Forall (row_absent_m new) (mhs s) ->
+  let '(s', o) := update_raw fixu fixm ord R ct fl s old new in
+  (o = Accepted /\ s' = fst (update_raw fixu fixm ord R ct None s old new)) \/ (o <> Accepted /\ rolled_back s s').
+Proof. exact two_phase_atomic_update. Qed.
+Print Assumptions C07_two_phase_atomic_update.
+
+(* the same for UpdateRaw(raw, column, item, assigner), where the item assignment is one more step that may
+   throw; on refusal/exception the row content is untouched as well *)
+Theorem C07_two_phase_atomic_update_column :
+  forall fixu fixm ord R ct fl s raw c v, wf s ->
+  let '(s', o, ct') := update_col fixu fixm ord R ct fl s raw c v in
+  (o = Accepted /\ s' = fst (fst (update_col fixu fixm ord R ct None s raw c v))) \/
+  (o <> Accepted /\ rolled_back s s' /\ ct' = ct).
+Proof. exact two_phase_atomic_update_column. Qed.
+Print Assumptions C07_two_phase_atomic_update_column.
+
+(* MultiHash::AcceptRemove (row among the values): on a value array whose completed segments
+   (SegmentedArraySettings<sqrt,6> sizes, regenerated from the header) are sorted by address, the row is
+   found - no assertion fails, the segment loop terminates -, exactly one occurrence disappears, nothing else
+   is lost or duplicated, and the completed segments of the result are sorted again (what the next
+   lower_bound needs). *)
+Theorem C07_multihash_remove_preserves :
+  forall raw vals, vals_ok vals -> In raw vals ->
+  exists vals', accept_remove raw vals = Some vals' /\ Permutation vals (raw :: vals') /\ vals_ok vals'.
+Proof. exact multihash_remove_preserves. Qed.
+Print Assumptions C07_multihash_remove_preserves.
+
+(* MultiHash::Find returns empty bounds for a key that no key row has (commit 95ed81f) ... *)
+Theorem C07_multihash_find_absent_empty :
+  forall R ct m k, (forall g, In g (mgroups m) -> keyc ct (mcols m) (gkey g) <> k) -> find_multi R ct m k = [].
+Proof. exact multihash_find_absent_empty. Qed.
+Print Assumptions C07_multihash_find_absent_empty.
+
+(* ... and the key row followed by its value array for a key that is present *)
+Theorem C07_multihash_find_present :
+  forall R ct m k g, (forall s, R s s = true) ->
+  In g (mgroups m) -> gskey g = k -> keyc ct (mcols m) (gkey g) = k ->
+  (forall g', In g' (mgroups m) -> keyc ct (mcols m) (gkey g') = k -> g' = g) ->
+  find_multi R ct m k = gkey g :: gvals g.
+Proof. exact multihash_find_present. Qed.
+Print Assumptions C07_multihash_find_present.
